@@ -14,6 +14,9 @@ use serde::{Deserialize, Serialize};
 
 pub use self::indexed::{EdgeKind, IndexedQuery, InvalidIRQueryError, Output};
 pub use self::types::{NamedTypedValue, Type};
+#[cfg(feature = "verif")]
+#[doc(hidden)]
+pub use self::types::verif_types;
 pub use self::value::{FieldValue, TransparentValue};
 
 mod indexed;
